@@ -144,10 +144,7 @@ func (c *Chain) Observe() *Observation {
 		var anom []string
 		o.TReq = append(o.TReq, KeyDg{Rid: c.ridOf(r.id, "", &anom), Dg: c.dgOf(&full)})
 	}
-	arb := c.Params.RefundDelay / 3
-	params := types.NewParams(c.Params.MaxTimeout, c.Params.Multiple,
-		sdk.NewCoins(sdk.NewCoin(Denom, sdk.NewInt(c.Params.MinDeposit))), sdk.NewDecWithPrec(c.Params.Tax, 3),
-		sdk.NewDecWithPrec(c.Params.Slash, 3), secs(c.Params.RefundDelay-arb), secs(arb), 4000, Denom)
+	params := sdkParams(c.Params)
 	o.TParams = c.dgOf(&params)
 	o.TSchema = []KeyDg{{Svc: "pricing", Dg: dg([]byte(types.PricingSchema))}, {Svc: "result", Dg: dg([]byte(types.ResultSchema))},
 		{Svc: "PRICING", Dg: dg([]byte(types.PricingSchema))}}
